@@ -377,6 +377,11 @@ func runReaders(c *simrun.Ctx) *simrun.Violation {
 	av := simval.Gen(t, md, cfg)
 	canon := simval.Canon(av)
 	useStruct := t.Chance("build-struct", 1, 2)
+	useMorph := !useStruct && t.Chance("build-morph", 1, 2)
+	var morphFrom protoreflect.Message
+	if useMorph {
+		morphFrom = simval.Gen(t, md, cfg)
+	}
 	emptyNotNil := t.Chance("empty-notnil", 1, 3)
 	emptyCap := []int{0, 1, 4}[t.Draw("empty-cap", 3)]
 	truncate := t.Chance("truncate-lists", 1, 3)
@@ -399,6 +404,8 @@ func runReaders(c *simrun.Ctx) *simrun.Violation {
 			h.EmptyNotNil = emptyNotNil
 			h.EmptyCap = emptyCap
 			m, err = h.BuildStruct(av, mt)
+		} else if useMorph {
+			m, err = h.BuildMorph(morphFrom, av, mt)
 		} else {
 			h.TruncateLists = truncate
 			m, err = h.BuildReflect(av, mt)
@@ -431,6 +438,9 @@ func runReaders(c *simrun.Ctx) *simrun.Violation {
 	}
 	if emptyUnknown {
 		st.Add("fault_empty_non_nil_unknown_fields", 1)
+	}
+	if useMorph {
+		st.Add("fault_message_morphed_from_another_value", 1)
 	}
 	if useStruct && emptyNotNil && emptyCap > 0 || !useStruct && truncate {
 		st.Add("fault_empty_lists_with_spare_capacity", 1)
